@@ -28,6 +28,8 @@ type c07Cur struct {
 	Mode  string `json:"mode"`
 	Kind  string `json:"kind"`
 	Hex   string `json:"hex"`
+	// the concurrent programs run just before this case: their goroutines may still have been alive
+	Prev []c07Cur `json:"prev,omitempty"`
 }
 
 // inputs known or suspected to end in a runtime fatal: never run in a batch child, always alone.
@@ -187,13 +189,22 @@ func c07Confirm(t *testing.T, out, mode, src string, stats *verifh.Stats, fails 
 	stderr, exit := c07Spawn(t, out, []string{"C07_CONFIRM=" + p, "C07_MAXSTACK=64"}, 240*time.Second)
 	stats.Inc("confirm_runs")
 
+	// the death of a concurrent program depends on how its goroutines were scheduled: two more tries
+	for try := 0; exit == 0 && strings.HasPrefix(kind, "conc") && try < 2; try++ {
+		stderr, exit = c07Spawn(t, out, []string{"C07_CONFIRM=" + p, "C07_MAXSTACK=64"}, 240*time.Second)
+		stats.Inc("confirm_runs")
+	}
+
 	if exit == 0 {
 		return false
 	}
 
 	cls, what, fatal := c07ClassifyFatal(stderr)
 
-	if !fatal || !strings.Contains(","+os.Getenv("C07_KNOWN")+",", ","+cls+",") || verifh.Thorough() {
+	// a panic in a goroutine does not depend on the stack limit: the first death is the verdict
+	stackBound := !fatal || strings.HasSuffix(cls, ":stack-overflow") || strings.HasSuffix(cls, ":out-of-memory") || strings.HasSuffix(cls, ":fatal")
+
+	if stackBound && (!fatal || !strings.Contains(","+os.Getenv("C07_KNOWN")+",", ","+cls+",") || verifh.Thorough()) {
 		stderr, exit = c07Spawn(t, out, []string{"C07_CONFIRM=" + p}, 240*time.Second)
 		stats.Inc("confirm_runs_default_stack")
 
@@ -288,7 +299,7 @@ func TestVerifC07(t *testing.T) {
 		}
 
 		// candidates: the case in flight and every case abandoned by this child
-		cands := []c07Cur{cur}
+		cands := append([]c07Cur{cur}, cur.Prev...)
 
 		if ab, err := os.ReadFile(filepath.Join(out, fmt.Sprintf("c07_abandoned.%d.jsonl", serial))); err == nil {
 			for _, line := range strings.Split(string(ab), "\n") {
